@@ -200,6 +200,10 @@ pub struct StepExec {
     /// Called after the step that overlapped a call left in flight, right before the executor
     /// waits for that call's answer (a harness that holds the foreign thread releases it here).
     pub overlap_release: Option<Box<dyn Fn()>>,
+    /// Give the runtime one turn before a non-seam, non-foreign `Pending` is classified as a park,
+    /// so that a `tokio::task::yield_now()` inside the code under test (whose wake-up is deferred
+    /// by the runtime) is recognised as a yield — and thereby as a cancellation point.
+    pub detect_deferred_yields: bool,
 }
 
 impl Default for StepExec {
@@ -215,7 +219,7 @@ impl StepExec {
         // fallback_classifications == 0): they are generous because a reply of a SQLite worker
         // thread can take seconds when the machine is overloaded, and classifying such a call as
         // "parked" lets other activities run into resources the in-flight call still holds.
-        StepExec { acts: Vec::new(), watchdog: Duration::from_secs(60), fallback: Duration::from_secs(20), overlap_release: None }
+        StepExec { acts: Vec::new(), watchdog: Duration::from_secs(60), fallback: Duration::from_secs(20), overlap_release: None, detect_deferred_yields: false }
     }
 
     pub fn add(&mut self, name: &str, policy: Policy, fut: impl Future<Output = ()> + 'static) -> usize {
@@ -368,6 +372,22 @@ impl StepExec {
                         Policy::Gated => in_foreign_call,
                     };
                     if !foreign {
+                        if self.detect_deferred_yields {
+                            // tokio's `yield_now()` does not wake its task at once: it hands the
+                            // waker to the runtime, which wakes it after the current poll of the
+                            // *outer* task returned. One turn of the runtime tells such a yield
+                            // from a park on a primitive.
+                            tokio::task::yield_now().await;
+                            if self.acts[i].flag.woken.load(SeqCst) {
+                                let n = YIELDS.with(|y| y.replace(y.get() + 1));
+                                if CANCEL_AT_YIELD.with(|c| c.get()) == Some(n) {
+                                    CANCEL_AT_YIELD.with(|c| c.set(None));
+                                    self.acts[i].fut = None;
+                                    return Ok(Step::Cancelled { act: i });
+                                }
+                                continue;
+                            }
+                        }
                         return Ok(Step::Ran { act: i, finished: false });
                     }
                     let flag = act.flag.clone();
